@@ -32,7 +32,7 @@ FAULTS = ['syntax', 'keyword', 'raise', 'torn', 'enoent', 'eacces', 'eio', 'brac
 
 
 def counts(tier: str):
-    return (250, 75.0) if tier == 'quick' else (15000, 900.0)
+    return (900, 75.0) if tier == 'quick' else (15000, 900.0)
 
 
 def base_model(rng, nn: int, nvar: int) -> dict:
@@ -41,7 +41,7 @@ def base_model(rng, nn: int, nvar: int) -> dict:
         routes = {}
         for p in rng.sample(RW.CONF_PREFIXES + ['192.0.6.0/24', '192.0.7.0/24'], rng.randint(0, 5)):
             routes[p] = {'nh': rng.choice(['self', '10.0.0.9']), 'v': rng.randint(0, nvar - 1)}
-        m['neighbors'][str(i)] = {'idx': i, 'hold': rng.choice([30, 90]), 'routes': routes}
+        m['neighbors'][str(i)] = {'idx': i, 'hold': rng.choice([30, 90]), 'routes': routes, 'aro': rng.chance(0.75)}  # aro: adj-rib-out enabled
     return m
 
 
@@ -101,7 +101,7 @@ def model_text(model: dict, variants) -> str:
         confs.append(
             {
                 'peer_ip': RW.PEER_IPS[i], 'local_ip': LOCAL, 'local_as': 65001, 'peer_as': RW.PEER_AS[i], 'router_id': LOCAL, 'hold': nb['hold'],
-                'families': [(1, 1)], 'adj-rib-out': True, 'api': {'processes': ['h1']}, 'static': static,
+                'families': [(1, 1)], 'adj-rib-out': nb.get('aro', True), 'api': {'processes': ['h1']}, 'static': static,
             }
         )  # fmt: skip
     return config_text([{'name': 'h1'}], confs)
@@ -244,9 +244,13 @@ def execute(plan: dict) -> dict:
                 return False
         return True
 
+    no_aro_seen: set = set()
+
     def check_tables(mdl: dict, where: str) -> None:
         for key, nb in mdl['neighbors'].items():
             i = nb['idx']
+            if not nb.get('aro', True):
+                no_aro_seen.add(i)
             sess = speakers[i].established()
             peer = w.peer_for(RW.PEER_IPS[i])
             if sess is None or peer is None:
@@ -254,6 +258,8 @@ def execute(plan: dict) -> dict:
             if sess.decode_errors:
                 violations.append(viol('C17/undecodable-update', sess.decode_errors[0][:300]))
                 return
+            if i in no_aro_seen and len(speakers[i].sessions) > 1:
+                continue  # without an Adj-RIB-Out nothing is replayed to a new session (recorded as an adjacent finding, not judged)
             pv = RW.peer_view(sess.table)
             want = expected_table(mdl, i)
             if st.get('api_unknown'):
@@ -264,6 +270,8 @@ def execute(plan: dict) -> dict:
                 d = RW.diff_tables(pv, want, 'peer', 'expected')
                 violations.append(viol('C17/peer-table-after-' + where, f'neighbor {RW.PEER_IPS[i]} ({where}, step {st["step"]}): ' + '; '.join(d), where=where))
                 return
+            if not mdl['neighbors'].get(str(i), {}).get('aro', True):
+                continue  # no Adj-RIB-Out is kept for this neighbor: the peer's table against the model is the whole judgement
             rep = {k: (LOCAL if v[0] == 'self' else v[0], v[1]) for k, v in RW.reported_table(peer.neighbor, False).items()}
             if st.get('api_unknown'):
                 if rep != pv_all:
